@@ -56,6 +56,15 @@ class Monitor:
         evs.append(["line", [0, 3, 0, 0, 3, "gw child"]])  # a child presented on the gateway node itself
         for p in PROBES:
             evs.append(["probe", p])
+        if self.cfg.get("sleepers"):
+            # wake announcements of both 2.x kinds, and application commands (internal types of several
+            # protocol generations) that are parked while node 1 sleeps and released under whatever rules
+            # are in force by then
+            evs.append(["probe", [1, 255, 3, 0, 22, "1500"]])
+            evs.append(["probe", [1, 255, 3, 0, 32, "500"]])
+            evs.append(["send", [1, 255, 3, 0, 13, ""]])
+            evs.append(["send", [1, 255, 3, 0, 32, "x"]])
+            evs.append(["send", [1, 3, 1, 0, 2, "v"]])
         return evs
 
     def apply(self, ev: list) -> list:
@@ -93,6 +102,11 @@ class Monitor:
                     sp2 = R.spec_protocol(gw.protocol_version)
                     if sp2 is not None:
                         self.eff = sp2
+        elif ev[0] == "send":
+            from aiomysensors.model.message import Message
+
+            out = s.send(Message(*ev[1]))
+            self.last_desc = out.describe()
         elif ev[0] == "probe":
             f = tuple(ev[1])
             out = s.line(R.enc(*f).rstrip("\n"))
@@ -194,11 +208,12 @@ def entry_case(job) -> list:
 
     from .. import pers
 
-    stored, reports = job
+    stored, reports = job[0], job[1]
+    via = job[2] if len(job) > 2 else "reply"
     viols = []
 
     def bad(k, what):
-        viols.append((f"C05|entry-{k}", f"persistence file with gateway node version {stored!r}, then reports {reports}: {what}", {"entry": [stored, reports]}))
+        viols.append((f"C05|entry-{k}", f"persistence file with gateway node version {stored!r}, then reports {reports} (by {'version reply' if via == 'reply' else 'gateway presentation'}): {what}", {"entry": [stored, reports, via]}))
 
     nodes = {1: Node(1, 17, "2.0", children={3: Child(3, 3)})}
     if stored is not None:
@@ -216,7 +231,7 @@ def entry_case(job) -> list:
         steps = [None] + list(reports)
         for r in steps:
             if r is not None:
-                out = s.line(f"0;255;3;0;2;{r}")
+                out = s.line(f"0;255;3;0;2;{r}" if via == "reply" else f"0;255;0;0;18;{r}")
                 sp = R.spec_protocol(r)
                 if sp is not None and out.kind == "yield":
                     eff = sp
@@ -238,7 +253,7 @@ def entry_case(job) -> list:
 
 
 def run(ctx: core.Ctx) -> core.Report:
-    ejobs = [(st, rp) for st in (None, "1.4", "1.5.0", "2.0.0", "2.2.0", "2.3.1", "junk", "") for rp in ([], ["2.1.1"], ["junk"], ["2.2.0", "junk"], ["1.5.0", "2.0.0"])]
+    ejobs = [(st, rp, via) for via in ("reply", "gwpres") for st in (None, "1.4", "1.5.0", "2.0.0", "2.2.0", "2.3.1", "junk", "") for rp in ([], ["2.1.1"], ["junk"], ["2.2.0", "junk"], ["1.5.0", "2.0.0"], [st], [st, "2.1.1", st]) if None not in rp and not (via == "gwpres" and not rp)]
     eres = core.pmap(entry_case, ejobs, ctx.workers)
     jobs = [("select", v) for v in version_grid(ctx.quick)]
     for v in R.VERSIONS:
@@ -253,6 +268,11 @@ def run(ctx: core.Ctx) -> core.Report:
     cfgs = [{"version": None}, {"version": "2.1"}] if ctx.quick else [{"version": None}, {"version": "1.5"}, {"version": "2.0"}, {"version": "2.2"}]
     cfgs += [{"version": None, "neighbour": True, "reports": ["1.5.0", "2.0.0", "junk"]}]
     res = bfs.search(ctx, MOD, cfgs, max_depth=depth)
+    res2 = bfs.search(ctx, MOD, [{"version": v, "reports": ["2.0.0", "2.1.1", "2.2.0"], "sleepers": True} for v in ((None,) if ctx.quick else (None, "2.0", "2.2"))], max_depth=5 if ctx.quick else 6)
+    for k in ("states", "transitions", "nontrivial_transitions"):
+        res[k] += res2[k]
+    for k in ("per_cfg", "samples", "violations"):
+        res[k] += res2[k]
     cov = {
         "states": res["states"],
         "transitions": res["transitions"] + len(jobs),
@@ -261,7 +281,7 @@ def run(ctx: core.Ctx) -> core.Report:
         "grid_cases": len(jobs),
         "context_entry_cases": len(ejobs),
         "distinct_nontrivial_transitions": res["nontrivial_transitions"],
-        "rule": "(a) every version string of the grid through the setter, a version reply and a gateway presentation; (c) every internal type -1..40 and stream type -1..8 per version; (b) all histories of version reports mixed with traffic and type probes to the stated depth; (d) gateways entering their context over persistence files with 8 stored gateway-node versions x 5 report sequences",
+        "rule": "(a) every version string of the grid through the setter, a version reply and a gateway presentation; (c) every internal type -1..40 and stream type -1..8 per version; (b) all histories of version reports mixed with traffic and type probes to the stated depth; (b') the same with wake announcements and application commands parked for a sleeping node across version changes; (d) gateways entering their context over persistence files with 8 stored gateway-node versions x 7 report sequences (the stored string itself included) x reported by version reply / by gateway presentation",
         "bounds": {"depth": depth, "version_strings": len(version_grid(ctx.quick)), "per_cfg": res["per_cfg"]},
         "samples": ctx.pick(res["samples"], 2) + [{"grid": jobs[7]}, {"grid": jobs[-3]}],
     }
@@ -279,7 +299,7 @@ def run(ctx: core.Ctx) -> core.Report:
 
 def replay(data: dict) -> dict:
     if "entry" in data:
-        v = entry_case((data["entry"][0], data["entry"][1]))
+        v = entry_case(tuple(data["entry"]))
         return {"violated": bool(v), "violations": [{"key": k, "what": w} for k, w, _ in v]}
     if "grid" in data:
         g = data["grid"]
